@@ -26,6 +26,10 @@ type binaryReader struct {
 
 	bits bitstream
 	cat  Catalog
+
+	// fieldNameErr holds the failure to resolve the field name just read, until the
+	// reader knows whether it names a value or NOP padding (whose field name is ignored).
+	fieldNameErr error
 }
 
 func newBinaryReaderBuf(in *bufio.Reader, cat Catalog) Reader {
@@ -43,6 +47,7 @@ func (r *binaryReader) Next() bool {
 	}
 
 	r.clear()
+	r.fieldNameErr = nil
 
 	done := false
 	for !done {
@@ -63,6 +68,11 @@ func (r *binaryReader) next() (bool, error) {
 	}
 
 	code := r.bits.Code()
+	if r.fieldNameErr != nil && code != bitcodeFieldID && !(code == bitcodeNull && !r.bits.IsNull()) {
+		// The field name that could not be resolved names a value.
+		return false, r.fieldNameErr
+	}
+
 	switch code {
 	case bitcodeEOF:
 		r.eof = true
@@ -82,7 +92,9 @@ func (r *binaryReader) next() (bool, error) {
 
 	case bitcodeNull:
 		if !r.bits.IsNull() {
-			// NOP padding; skip it and keep going.
+			// NOP padding; skip it and keep going. Its field name, if any, is ignored.
+			r.fieldName = nil
+			r.fieldNameErr = nil
 			err := r.bits.SkipValue()
 			return false, err
 		}
@@ -264,7 +276,9 @@ func (r *binaryReader) readFieldName() error {
 
 	st, err := NewSymbolTokenBySID(r.SymbolTable(), int64(id))
 	if err != nil {
-		return err
+		// Reported by next() unless what follows is NOP padding.
+		r.fieldNameErr = err
+		return nil
 	}
 
 	r.fieldName = &st
